@@ -1,7 +1,9 @@
 import EpgVerif.Props.C09
+import EpgVerif.Tie.PuritySites
 open EpgVerif.Props.C09
 #print axioms step_version
 #print axioms version_after_history
 #print axioms untouched_without_inplace
 #print axioms fresh_result
 #print axioms readonly_inplace_copies
+#print axioms EpgVerif.Tie.PuritySites.sites_as_modelled
